@@ -27,6 +27,7 @@ def handlers : List (String × (Json → R Json)) := [
   ("proc.run", hProcRun),
   ("crash.wf", hCrashWf), ("crash.trace", hCrashTrace), ("crash.resume", hCrashResume),
   ("grp.run", hGrpRun),
+  ("grp.file", hGrpFile),
   ("attrs.match", hAttrsMatch),
   ("dup.decide", hDupDecide),
   ("main.check", hMainCheck),
